@@ -21,6 +21,8 @@ func TestReplay(t *testing.T) {
 		key, msg = replayC16(t, f.Script)
 	case "TestC17":
 		key, msg = replayC17(t, f.Script)
+	case "TestC19":
+		key, msg = replayC19(t, f.Script)
 	default:
 		t.Fatalf("no replay handler for %s", f.Test)
 	}
